@@ -124,6 +124,8 @@ def vf : P String := do
   let exact := dyadic && isPow2 m.O && h ≤ 3
   let v : Verdict := { tag := s!"vf h{h} S{m.S}" ++ (if exact then " exact" else " approx") }
   -- shape: one list per timestep 0..h, first list is the single zero vector
+  -- the as-written merge schedule gathers every observation exactly once for this O (hypothesis of `incremental_pruning_as_written_exact`)
+  let v := v.diffIf (solver == "IncrementalPruning" && !(scheduleOK m.O)) s!"{solver} merge_schedule_incomplete O={m.O}"
   let v := v.failIf (lists.length != h + 1) s!"{solver} wrong_number_of_timesteps {lists.length}"
   let last : List Vec := (lists.getLastD []).map (·.2)
   let v := v.failIf last.isEmpty s!"{solver} empty_value_function"
